@@ -39,20 +39,41 @@ def _alarm(signum, frame):
     raise Slow()
 
 
-class CountingLexer(sparser.Lexer):
+class LexProxy:
+    """Stands in for a parser's public `lexer` attribute *around the lexer object the parser created* (so that whatever
+    that object shares with other parsers stays shared): counts the tokens handed out (deterministic hang detection)
+    and can let an intruder run between two tokens."""
+
+    def __init__(self, inner):
+        object.__setattr__(self, "_inner", inner)
+        object.__setattr__(self, "yields", 0)
+        object.__setattr__(self, "intrude_at", 0)
+
+    def __getattr__(self, name):
+        return getattr(object.__getattribute__(self, "_inner"), name)
+
+    def __setattr__(self, name, value):
+        if name in ("yields", "intrude_at"):
+            object.__setattr__(self, name, value)
+        else:
+            setattr(object.__getattribute__(self, "_inner"), name, value)
+
     def scan(self, text):
         self.yields = 0
         cap = 4 * len(text) + 16
-        for tok in sparser.Lexer.scan(self, text):
+        for tok in object.__getattribute__(self, "_inner").scan(text):
             self.yields += 1
             if self.yields > cap:
                 raise Hang()
+            if self.yields == self.intrude_at:
+                # another Parser object parses a whole (extension-free) script while this one is between two tokens
+                sparser.Parser().parse(b"if true { keep; }")
             yield tok
 
 
 def new_parser():
     p = sparser.Parser()
-    p.lexer = CountingLexer(sparser.Parser.lrules)
+    p.lexer = LexProxy(p.lexer)
     return p
 
 
@@ -180,7 +201,13 @@ def run_parse(p, data, rt=False):
         signal.setitimer(signal.ITIMER_REAL, WALL_LIMIT if _slow_events[0] < 3 else 0.3)
     # configuration: every fourth input is parsed with the parser's debug flag on (what it prints is discarded);
     # nothing that is judged may depend on it
-    p.debug = zlib.crc32(data if isinstance(data, bytes) else data.encode("utf-8")) % 4 == 0
+    h = zlib.crc32(data if isinstance(data, bytes) else data.encode("utf-8"))
+    p.debug = h % 4 == 0
+    # every fifth script that requires nothing is parsed with an intruder: between two of its tokens another Parser
+    # object parses a script (no `require' on either side: the documented process-wide extension list stays empty)
+    if isinstance(p.lexer, LexProxy):
+        low = data.lower() if isinstance(data, bytes) else data.lower().encode("utf-8")
+        p.lexer.intrude_at = 1 + (h // 4) % 7 if ((h // 4) % 5 == 0 and b"require" not in low) else 0
     try:
         try:
             if p.debug:
